@@ -7,6 +7,7 @@ import (
 	"encoding/json"
 	"errors"
 	"fmt"
+	"io"
 	"net"
 	"os"
 	"os/exec"
@@ -52,7 +53,12 @@ type lw struct {
 	data []byte
 }
 
-func (w *lw) Write(p []byte) (int, error) { w.n++; w.lvl = -100; w.data = append(w.data[:0], p...); return len(p), nil }
+func (w *lw) Write(p []byte) (int, error) {
+	w.n++
+	w.lvl = -100
+	w.data = append(w.data[:0], p...)
+	return len(p), nil
+}
 func (w *lw) WriteLevel(l zerolog.Level, p []byte) (int, error) {
 	w.n++
 	w.lvl = l
@@ -295,17 +301,17 @@ type cHook struct{ c *counters }
 func (h cHook) Run(e *zerolog.Event, l zerolog.Level, m string) { h.c.n++ }
 
 var (
-	tString    = reflect.TypeOf("")
-	tError     = reflect.TypeOf((*error)(nil)).Elem()
-	tStringer  = reflect.TypeOf((*fmt.Stringer)(nil)).Elem()
-	tObj       = reflect.TypeOf((*zerolog.LogObjectMarshaler)(nil)).Elem()
-	tArr       = reflect.TypeOf((*zerolog.LogArrayMarshaler)(nil)).Elem()
-	tIface     = reflect.TypeOf((*interface{})(nil)).Elem()
-	tEvent     = reflect.TypeOf((*zerolog.Event)(nil))
-	tCtx       = reflect.TypeOf((*context.Context)(nil)).Elem()
-	tTime      = reflect.TypeOf(time.Time{})
-	tFuncEv    = reflect.TypeOf(func(*zerolog.Event) {})
-	tFuncStr   = reflect.TypeOf(func() string { return "" })
+	tString   = reflect.TypeOf("")
+	tError    = reflect.TypeOf((*error)(nil)).Elem()
+	tStringer = reflect.TypeOf((*fmt.Stringer)(nil)).Elem()
+	tObj      = reflect.TypeOf((*zerolog.LogObjectMarshaler)(nil)).Elem()
+	tArr      = reflect.TypeOf((*zerolog.LogArrayMarshaler)(nil)).Elem()
+	tIface    = reflect.TypeOf((*interface{})(nil)).Elem()
+	tEvent    = reflect.TypeOf((*zerolog.Event)(nil))
+	tCtx      = reflect.TypeOf((*context.Context)(nil)).Elem()
+	tTime     = reflect.TypeOf(time.Time{})
+	tFuncEv   = reflect.TypeOf(func(*zerolog.Event) {})
+	tFuncStr  = reflect.TypeOf(func() string { return "" })
 )
 
 // argFor builds an instrumented argument of type t. variant selects among alternatives.
@@ -559,6 +565,18 @@ func TestPanicBehaviour(t *testing.T) {
 		{"Panic() level-gated (Disabled logger)", func() { l := zerolog.New(w).Level(zerolog.Disabled); l.Panic().Msg("boom") }, true, 0},
 		{"Panic() on Nop logger", func() { l := zerolog.Nop(); l.Panic().Msg("boom") }, true, 0},
 		{"Panic() sampled out", func() { l := zerolog.New(w).Sample(&zerolog.BasicSampler{N: 0}); l.Panic().Msg("boom") }, true, 0},
+		{"second Panic() rejected by BasicSampler{2}", func() {
+			l := zerolog.New(w).Sample(&zerolog.BasicSampler{N: 2})
+			func() { defer func() { recover() }(); l.Panic().Msg("first, admitted") }()
+			w.n = 0
+			l.Panic().Msg("second, rejected: must still panic")
+		}, true, 0},
+		{"Panic() under global Disabled", func() {
+			zerolog.SetGlobalLevel(zerolog.Disabled)
+			defer zerolog.SetGlobalLevel(zerolog.TraceLevel)
+			l := zerolog.New(w)
+			l.Panic().Msg("boom")
+		}, true, 0},
 		{"WithLevel(Panic) enabled", func() { l := zerolog.New(w); l.WithLevel(zerolog.PanicLevel).Msg("x") }, false, 1},
 		{"WithLevel(Panic) filtered", func() { l := zerolog.New(w).Level(zerolog.Disabled); l.WithLevel(zerolog.PanicLevel).Msg("x") }, false, 0},
 		{"WithLevel(Fatal) enabled", func() { l := zerolog.New(w); l.WithLevel(zerolog.FatalLevel).Msg("x") }, false, 1},
@@ -605,6 +623,17 @@ func child(c string) {
 	case "fatal-nop":
 		l := zerolog.Nop()
 		l.Fatal().Msg("bye")
+	case "fatal-sampled":
+		l := zerolog.New(os.Stdout).Sample(&zerolog.BasicSampler{N: 0})
+		l.Fatal().Msg("bye")
+	case "fatal-sampled-second":
+		l := zerolog.New(io.Discard).Sample(&zerolog.BasicSampler{N: 2})
+		l.Info().Msg("takes the first slot")
+		l.Fatal().Msg("rejected by the sampler, must still exit")
+	case "fatal-global":
+		zerolog.SetGlobalLevel(zerolog.Disabled)
+		l := zerolog.New(os.Stdout)
+		l.Fatal().Msg("bye")
 	case "withlevel-fatal":
 		l := zerolog.New(os.Stdout)
 		l.WithLevel(zerolog.FatalLevel).Msg("still here")
@@ -632,6 +661,9 @@ func TestFatalBehaviour(t *testing.T) {
 		{"fatal-enabled", 1, `"level":"fatal"`},
 		{"fatal-filtered", 1, ""},
 		{"fatal-nop", 1, ""},
+		{"fatal-sampled", 1, ""},
+		{"fatal-sampled-second", 1, ""},
+		{"fatal-global", 1, ""},
 		{"withlevel-fatal", 0, "SURVIVED"},
 		{"withlevel-fatal-filtered", 0, "SURVIVED"},
 		{"info-after-fatal-pool", 0, "SURVIVED"},
